@@ -102,10 +102,10 @@ def run_batch(ctx, cases, per_case_timeout=15):
     return results
 
 
-def run_all(ctx, cases, workers=8):
+def run_all(ctx, cases, workers=2):
     if not cases:
         return []
-    n = max(1, min(workers, len(cases) // 8 or 1))
+    n = max(1, min(2, workers, len(cases) // 8 or 1))
     chunks = [cases[j::n] for j in range(n)]
     with ThreadPoolExecutor(max_workers=n) as ex:
         parts = list(ex.map(lambda ch: run_batch(ctx, ch), chunks))
@@ -175,11 +175,13 @@ def case_term(variant_bits, prog, quiet, inputs, obs):
     return f"({variant_bits}, {G.coq_prog(prog)}, {coq_bool(quiet)}, {ins}, {status}, {outs})"
 
 
-def coq_eval_codes(ctx, name, case_terms, fn="classify", ty="pcase", timeout=900, shard=100):
+def coq_eval_codes(ctx, name, case_terms, fn="classify", ty="pcase", timeout=1500, shard=None):
     """like vlib.coq_eval_mismatches but returns the N code computed for every case (0 agree, 1 disagree, 2 fuel, 3 unsupported);
     -1 for cases of a shard whose evaluation failed."""
     GEN.mkdir(exist_ok=True)
     procs = []
+    # at most two coqc processes at a time (shared machine): two shards
+    shard = max(1, len(case_terms) // 2 + 1)
     for k in range(0, len(case_terms), shard):
         part = case_terms[k:k + shard]
         f = GEN / f"cases_{name}_{k // shard}.v"
@@ -211,7 +213,7 @@ def coq_eval_codes(ctx, name, case_terms, fn="classify", ty="pcase", timeout=900
         except FileNotFoundError:
             pass
         return k, n, res, (err or out)[-1500:]
-    with ThreadPoolExecutor(max_workers=14) as ex:
+    with ThreadPoolExecutor(max_workers=2) as ex:
         for k, n, res, err in ex.map(one, procs):
             if res is None:
                 errs.append(f"shard@{k}: {err}")
@@ -404,7 +406,7 @@ def stack_tie(ctx):
         ctx.count(("stack", json.dumps(s)))
     ctx.dist("stack_op_sequences", len(seqs))
     with ctx.timed("coq_cases"):
-        bad, err = coq_eval_mismatches(ctx, "C14stack", "C14.Value C14.Stack C14.Model C14.Harness", "list sop * list sobs", "chk_stack", terms)
+        bad, err = coq_eval_mismatches(ctx, "C14stack", "C14.Value C14.Stack C14.Model C14.Harness", "list sop * list sobs", "chk_stack", terms, shard=len(terms) // 2 + 1)
     ctx.cov["stack_tie"] = {"sequences": len(seqs), "mismatches": len(bad)}
     if err:
         ctx.violation({"broken": "stack-tie evaluation", "detail": err[-1500:]}, found_input=False)
@@ -437,7 +439,7 @@ def cells(ctx, bits):
     cases.append(prog_of([("and", a, b) for a in vals for b in vals]))
     cases.append(prog_of([("or", a, b) for a in vals for b in vals]))
     cases.append(prog_of([("not", a) for a in vals] + [("neg", a) for a in vals] + [("coal", a, b) for a in vals for b in vals[:4]]
-                         + [("tern", a, ("int", 1), ("int", 2)) for a in vals] + [("index", a, b) for a in vals for b in vals if a[0] != "str" and not (a[0] == "int" and a[1] < 0)]))
+                         + [("tern", a, ("int", 1), ("int", 2)) for a in vals] + [("index", a, b) for a in vals for b in vals if a[0] in ("maplit", "oos", "bool") or (a[0] == "int" and a[1] >= 0)]))
     # gate table: every declared type x every kind of value, inside a function so that a rejected assignment is an error VALUE
     for ty in ["var", "int", "num", "str", "bool", "map", "float", "arr", "funct"]:
         f = {"name": "fa", "params": [("any", "aa")], "ret": "any", "body": [("define", ty, "t", ("local", "aa")), ("return", ("str", "ok"))]}
@@ -614,15 +616,39 @@ def oracles(ctx):
 
 def replay(ctx, path):
     obj = json.loads(Path(path).read_text())
-    print("replay:", obj.get("program"))
-    if "program" in obj and "inputs" in obj:
-        o = observe(ctx, obj["program"], [[tuple(kv) for kv in r] for r in obj["inputs"]], obj.get("quiet", False))
+    cls = obj.get("class") or ""
+    print("replay:", cls or obj.get("broken"), "|", str(obj.get("program") or obj.get("expression"))[:200])
+    if "coq_case" in obj and "inputs" in obj:
+        # a correspondence / cell case: run the stored program again and compare with the model again
+        text = obj["program"]
+        inputs = [[tuple(kv) for kv in r] for r in obj["inputs"]]
+        o = observe(ctx, text, inputs, obj.get("quiet", False))
         print("observed now:", {k: o.get(k) for k in ("class", "out")})
-        ctx.count(obj["program"])
-        if "coq_case" in obj:
-            codes, err = coq_eval_codes(ctx, "C14replay", [obj["coq_case"]])
-            print("model agreement code for the stored observation:", codes, err[-500:])
+        ctx.count((text, str(inputs)))
+        # the stored Coq case holds the program term; re-render the observation part from the fresh run
+        head = obj["coq_case"].rsplit(", %s, " % ("0" if obj["observed"]["class"] == "ok" else "1"), 1)[0]
+        if o["class"] in ("ok", "mlr_error"):
+            fresh = head + ", %s, %s)" % (("0", cq_outs(o["out"])) if o["class"] == "ok" else ("1", "[]"))
+            codes, err = coq_eval_codes(ctx, "C14replay", [fresh])
+            print("model agreement code (0 agree, 1 disagree, 2 fuel, 3 outside fragment):", codes, err[-300:])
             if codes and codes[0] == 1:
-                ctx.violation(dict(obj, replayed=True))
+                ctx.violation(dict(obj, replayed=True, observed={k: o.get(k) for k in ("class", "out", "stderr")}))
+        elif o["class"] == "panic":
+            ctx.violation(dict(obj, replayed=True, observed=o))
+    elif "expression" in obj:
+        st, out, err = mlr_run(ctx, ["-n", "put", "-v", "-X", "x = " + obj["expression"]], timeout=120)
+        root = P.parse_ast(out.decode("utf-8", "replace").split("AST:", 1)[-1].splitlines())
+        got = None
+        try:
+            got = P.norm_ast(root[2][0][2][0][2][1])
+        except Exception:
+            pass
+        ctx.count(("prec", obj["expression"]))
+        print("parsed now:", got)
+        want = json.loads(json.dumps(obj["generated_tree"]))
+        if json.loads(json.dumps(got)) != want:
+            ctx.violation(dict(obj, replayed=True, parsed_tree=got))
+    elif cls.startswith("oracle-"):
+        oracles(ctx)
     else:
         probes(ctx)
